@@ -314,7 +314,7 @@ def h_eq_fields(ctx, cfg):
     import dataclasses
     import code_data as cd
     reads = set()
-    for f in ("_code_data.py", "_blocks.py", "_line_mapping.py", "_args.py", "_json_data.py", "_constants.py", "_normalize.py", "__init__.py"):
+    for f in ("_code_data.py", "_blocks.py", "_line_mapping.py", "_args.py", "_constants.py"):
         for n in ast.walk(ast.parse(open(os.path.join(PKG(), f), encoding="utf-8").read())):
             if isinstance(n, ast.Attribute):
                 reads.add(n.attr)
@@ -323,7 +323,7 @@ def h_eq_fields(ctx, cfg):
         cls = getattr(cd, name)
         for f in dataclasses.fields(cls):
             n += 1
-            if f.name in reads or name == "CodeData":
+            if f.name in reads:
                 ctx.prove("field_participates_in_eq[%s.%s]" % (name, f.name), z3.BoolVal(bool(f.compare)), detail="compare=%r" % f.compare)
                 ctx.prove("field_participates_in_hash[%s.%s]" % (name, f.name), z3.BoolVal(f.hash is None or bool(f.hash)), detail="hash=%r" % f.hash)
         own = [m for m in ("__eq__", "__hash__", "__ne__") if m in cls.__dict__ and getattr(cls.__dict__[m], "__qualname__", "").startswith(name + ".") and
